@@ -410,6 +410,23 @@ func (s *Sim) execBlock(spec *BlockSpec) {
 		eb.Txs = append(eb.Txs, &ExecTx{Index: i, Spec: ts, Bytes: bz, Acc: acc})
 	}
 	s.cur = eb
+	// monitors that need the state the begin blocker will see: committed state + new header
+	{
+		c := s.N0.App.BaseApp.NewUncachedContext(false, cmtproto.Header{Height: h, Time: now, ChainID: ChainID})
+		pre, _ := c.CacheContext()
+		for _, m := range s.Monitors {
+			if bb, ok := m.(interface{ BeforeBlock(*Sim, sdk.Context) }); ok {
+				func() {
+					defer func() {
+						if r := recover(); r != nil {
+							s.Harness("monitor %s BeforeBlock panicked: %v", m.Name(), r)
+						}
+					}()
+					bb.BeforeBlock(s, pre)
+				}()
+			}
+		}
+	}
 	s.Hooks.beginBlock(eb)
 	res0 := s.N0.Finalize(s.W, blk)
 	if n := s.N0.DB.ReleaseAll(); n > 0 {
